@@ -25,6 +25,15 @@ theorem dom_of_scores (c : NTCfg) (orf tmp : Seq) (mt mm : Int) (h : c.scores = 
   rw [schemeOf_mm _ h1, h2, h3]
   exact dom_of_match_mismatch mt mm _ _ hpos hlt s t
 
+/-- … and it does not depend on the strand being aligned -/
+theorem scheme_of_scores_eq (c : NTCfg) (orf t1 t2 : Seq) (mt mm : Int) (h : c.scores = some (mt, mm)) :
+    schemeOf (c.aligner orf t1) = schemeOf (c.aligner orf t2) := by
+  obtain ⟨a1, a2, a3⟩ := aligner_mm c orf t1 mt mm h
+  obtain ⟨b1, b2, b3⟩ := aligner_mm c orf t2 mt mm h
+  obtain ⟨g1, g2⟩ := aligner_gaps c orf t1
+  obtain ⟨g3, g4⟩ := aligner_gaps c orf t2
+  rw [schemeOf_mm _ a1, schemeOf_mm _ b1, a2, a3, b2, b3, g1, g2, g3, g4]
+
 theorem slice_occurrence (pre orf post : Seq) (hne : orf ≠ []) :
     Phase.slice (pre ++ orf ++ post) pre.length (pre.length + orf.length - 1 + 1) = orf ∧
     Phase.slice (pre ++ orf ++ post) pre.length (pre ++ orf ++ post).length = orf ++ post := by
@@ -37,14 +46,20 @@ theorem slice_occurrence (pre orf post : Seq) (hne : orf ≠ []) :
   · apply List.take_of_length_le
     simp
 
-/-- **`alignAgainstRefsNT` on a verbatim occurrence** (one reference, forward strand only, repaired aligner):
-unless an alignment error is reported, the result is trimmed exactly at the occurrence — reported position
-`|pre|`, trimmed nucleotides `orf ++ post` (`orf` with cut-end), frame 0. -/
+/-- **`alignAgainstRefsNT` on a verbatim occurrence** (one reference, repaired aligner; forward strand, or both
+strands when the scheme is dominant on the reverse-complemented copy too): unless an alignment error is
+reported, the result is trimmed exactly at the occurrence — reported position `|pre|`, trimmed nucleotides
+`orf ++ post` (`orf` with cut-end), frame 0, forward strand (a tie with the other strand keeps the forward hit). -/
 theorem phaseNT_verbatim (c : NTCfg) (code : List (List Byte × Byte)) (orf pre post : Seq)
-    (hfix : c.fixed = true) (hrev : c.reverse = false)
+    (hfix : c.fixed = true)
     (hgap : c.gapopen ≤ c.gapextend ∧ c.gapextend < 0) (hne : orf ≠ []) (hng : GAP ∉ orf)
     (hdom : Dom (schemeOf (c.aligner orf (pre ++ orf ++ post))) orf (pre ++ orf ++ post))
-    (honce : ∀ k, orf <+: (pre ++ orf ++ post).drop k → k = pre.length) :
+    (honce : ∀ k, orf <+: (pre ++ orf ++ post).drop k → k = pre.length)
+    (hrev : c.reverse = true →
+      Dom (schemeOf (c.aligner orf (revcompIgnoringError (pre ++ orf ++ post)))) orf
+          (revcompIgnoringError (pre ++ orf ++ post)) ∧
+        W (schemeOf (c.aligner orf (revcompIgnoringError (pre ++ orf ++ post)))) orf
+          ≤ W (schemeOf (c.aligner orf (pre ++ orf ++ post))) orf) :
     phaseNT c code [orf] (pre ++ orf ++ post) = NTOut.err ∨
     ∃ p, phaseNT c code [orf] (pre ++ orf ++ post)
         = NTOut.ok p ⟨false, 0, pre.length, pre.length + orf.length - 1⟩ ∧
@@ -55,35 +70,68 @@ theorem phaseNT_verbatim (c : NTCfg) (code : List (List Byte × Byte)) (orf pre 
   have hW : 0 < W (schemeOf (c.aligner orf (pre ++ orf ++ post))) orf :=
     W_pos _ orf hne (fun x hx => (hdom x hx).1)
   have hm : 0 < orf.length := List.length_pos_iff.mpr hne
-  simp only [phaseNT, ntSelect, ntStep, hrev, hfix, Bool.false_eq_true, if_false]
-  rcases hA with hA | hA
-  · left; rw [hA]
-  · right
-    rw [hA]
-    simp only []
-    rw [if_pos (by show W _ orf > (0 : Int); exact hW)]
-    -- the aligned row of the sequence is the reference: not all gaps, no leading gap
-    have hall : orf.all (· == GAP) = false := by
-      cases orf with
-      | nil => exact absurd rfl hne
-      | cons x t =>
-        have : x ≠ GAP := fun e => hng (e ▸ List.mem_cons_self)
-        simp [this]
-    have htw : (orf.takeWhile (· == GAP)).length = 0 := by
-      cases orf with
-      | nil => rfl
-      | cons x t =>
-        have : x ≠ GAP := fun e => hng (e ▸ List.mem_cons_self)
-        have hx : (x == GAP) = false := by simp [this]
-        simp [List.takeWhile, hx]
-    rw [hall]
-    simp only [Bool.false_eq_true, if_false, htw]
-    have e1 : ((pre.length : Int)).toNat = pre.length := by omega
-    have e2 : ((pre.length : Int) + orf.length - 1).toNat = pre.length + orf.length - 1 := by omega
-    rw [e1, e2]
+  -- the aligned row of the sequence is the reference: not all gaps, no leading gap
+  have hall : orf.all (· == GAP) = false := by
+    cases orf with
+    | nil => exact absurd rfl hne
+    | cons x t =>
+      have : x ≠ GAP := fun e => hng (e ▸ List.mem_cons_self)
+      simp [this]
+  have htw : (orf.takeWhile (· == GAP)).length = 0 := by
+    cases orf with
+    | nil => rfl
+    | cons x t =>
+      have : x ≠ GAP := fun e => hng (e ▸ List.mem_cons_self)
+      have hx : (x == GAP) = false := by simp [this]
+      simp [List.takeWhile, hx]
+  have e1 : ((pre.length : Int)).toNat = pre.length := by omega
+  have e2 : ((pre.length : Int) + orf.length - 1).toNat = pre.length + orf.length - 1 := by omega
+  -- the forward pass
+  have hstep1 : ntStep c (pre ++ orf ++ post) orf {} false = NTStep.err ∨
+      ntStep c (pre ++ orf ++ post) orf {} false = NTStep.go
+        ⟨W (schemeOf (c.aligner orf (pre ++ orf ++ post))) orf,
+         some ⟨false, 0, pre.length, pre.length + orf.length - 1⟩⟩ := by
+    simp only [ntStep, hfix, Bool.false_eq_true, if_false]
+    rcases hA with hA | hA
+    · left; rw [hA]
+    · right
+      rw [hA]
+      simp only []
+      rw [if_pos (by show W _ orf > (0 : Int); exact hW), hall]
+      simp only [Bool.false_eq_true, if_false, htw, e1, e2]
+  -- the pass over the reverse-complemented copy cannot replace it
+  have hstep2 : c.reverse = true → ∀ b, b.score = W (schemeOf (c.aligner orf (pre ++ orf ++ post))) orf →
+      ntStep c (pre ++ orf ++ post) orf b true = NTStep.err ∨
+      ntStep c (pre ++ orf ++ post) orf b true = NTStep.go b := by
+    intro hr b hb
+    obtain ⟨hd', hw'⟩ := hrev hr
+    obtain ⟨g1', g2'⟩ := aligner_gaps c orf (revcompIgnoringError (pre ++ orf ++ post))
+    have hB := alignATG_score_le (c.aligner orf (revcompIgnoringError (pre ++ orf ++ post))) orf
+      (revcompIgnoringError (pre ++ orf ++ post)) (by rw [g1', g2']; exact hgap) hne hd'
+    simp only [ntStep, hfix, if_true]
+    rcases hB with hB | ⟨r, hB, hs⟩
+    · left; rw [hB]
+    · right
+      rw [hB]
+      simp only []
+      rw [if_neg (by omega)]
+  obtain ⟨s1, s2⟩ := slice_occurrence pre orf post hne
+  have hlen : (pre ++ orf ++ post).length = pre.length + orf.length + post.length := by simp; omega
+  -- what the selected hit is turned into
+  have hfinal : ∀ b : NTBest, b.hit = some ⟨false, 0, pre.length, pre.length + orf.length - 1⟩ →
+      ∃ p, (match b.hit with
+        | none => NTOut.panic
+        | some h =>
+          let tmp := strandOf (pre ++ orf ++ post) h
+          let bestend := if c.cutend then h.seqend + 1 else tmp.length
+          let ph := (3 - h.frame % 3) % 3
+          if h.seqstart > bestend || h.seqstart + ph > bestend then NTOut.panic
+          else NTOut.ok (assembleNT code tmp h c.cutend) h)
+        = NTOut.ok p ⟨false, 0, pre.length, pre.length + orf.length - 1⟩ ∧
+      p.position = pre.length ∧ p.nt = (if c.cutend then orf else orf ++ post) ∧ p.codon = p.nt := by
+    intro b hb
+    rw [hb]
     simp only [strandOf, Bool.false_eq_true, if_false]
-    obtain ⟨s1, s2⟩ := slice_occurrence pre orf post hne
-    have hlen : (pre ++ orf ++ post).length = pre.length + orf.length + post.length := by simp; omega
     cases hc : c.cutend with
     | true =>
       simp only [if_true]
@@ -97,6 +145,27 @@ theorem phaseNT_verbatim (c : NTCfg) (code : List (List Byte × Byte)) (orf pre 
       refine ⟨_, rfl, rfl, ?_, ?_⟩
       · simp only [assembleNT, Bool.false_eq_true, if_false, s2]
       · simp only [assembleNT, Bool.false_eq_true, if_false, Nat.zero_mod, Nat.sub_zero, Nat.mod_self, Nat.add_zero]
+  generalize hb0 : (⟨W (schemeOf (c.aligner orf (pre ++ orf ++ post))) orf,
+      some ⟨false, 0, pre.length, pre.length + orf.length - 1⟩⟩ : NTBest) = b0 at hstep1
+  have hb0h : b0.hit = some ⟨false, 0, pre.length, pre.length + orf.length - 1⟩ := by rw [← hb0]
+  have hb0s : b0.score = W (schemeOf (c.aligner orf (pre ++ orf ++ post))) orf := by rw [← hb0]
+  simp only [phaseNT, ntSelect]
+  rcases hstep1 with h1 | h1
+  · left; rw [h1]
+  · rw [h1]
+    simp only []
+    cases hr : c.reverse with
+    | false =>
+      right
+      simp only [Bool.false_eq_true, if_false]
+      exact hfinal b0 hb0h
+    | true =>
+      simp only [if_true]
+      rcases hstep2 hr b0 hb0s with h2 | h2
+      · left; rw [h2]
+      · right
+        rw [h2]
+        exact hfinal b0 hb0h
 
 /-! ### the default scoring of the phaser on A/C/G/T sequences: DNAfull is dominant there -/
 
